@@ -32,8 +32,8 @@ HALVES = {
         tiers={
             "quick": dict(passes=[dict(cfg="Dhcp6.mc.cfg", order=False, workers=4, deadline_s=30, tlc_workers=4)],
                           traceruns=3, tracesteps=400),
-            "thorough": dict(passes=[dict(cfg="Dhcp6.mc.cfg", order=True, workers=5, deadline_s=100, tlc_workers=4),
-                                     dict(cfg="Dhcp6.big.cfg", order=False, workers=5, deadline_s=160, tlc_workers=5)],
+            "thorough": dict(passes=[dict(cfg="Dhcp6.mc.cfg", order=True, workers=5, deadline_s=80, tlc_workers=4),
+                                     dict(cfg="Dhcp6.big.cfg", order=False, workers=5, deadline_s=130, tlc_workers=5)],
                              traceruns=10, tracesteps=600),
         },
         defaults={"Solicit": ["none"], "Request": ["refuse"], "Decline": ["any"], "Release": ["any"],
@@ -49,8 +49,8 @@ HALVES = {
         tiers={
             "quick": dict(passes=[dict(cfg="DhcpSvc.mc.cfg", order=False, workers=3, deadline_s=30, tlc_workers=3)],
                           traceruns=3, tracesteps=400),
-            "thorough": dict(passes=[dict(cfg="DhcpSvc.mc.cfg", order=False, workers=4, deadline_s=60, tlc_workers=3),
-                                     dict(cfg="DhcpSvc.big.cfg", order=False, workers=5, deadline_s=200, tlc_workers=5)],
+            "thorough": dict(passes=[dict(cfg="DhcpSvc.mc.cfg", order=False, workers=4, deadline_s=40, tlc_workers=3),
+                                     dict(cfg="DhcpSvc.big.cfg", order=False, workers=5, deadline_s=170, tlc_workers=5)],
                              traceruns=10, tracesteps=600),
         },
         defaults={"AddLease": ["err"], "UpdateStatic": ["err"], "RemoveLease": ["err"]},
@@ -109,11 +109,124 @@ def classify(half, rec):
     return classify_v6(rec) if half == "v6" else classify_svc(rec)
 
 
+def _alias(univ):
+    """Abstract address outside the range -> index of the pool address with the same last byte
+    (the concretisation of zz_verif_g06_test.go: every other `out' lies in another prefix)."""
+    pool, outs = sorted(univ.get("pool") or []), sorted(univ.get("outs") or [])
+    return {o: (j // 2) % len(pool) for j, o in enumerate(outs) if j % 2 == 0 and pool}
+
+
 def classify_v6(rec):
+    a = rec["act"]
+    act = a["act"]
+    post = rec.get("post") or {}
+    src = [tuple(l) for l in rec.get("src") or []]
+    ls = [tuple(l) for l in post.get("ls", [])]
+    srcprob = set(rec.get("srcprob") or [])
+    newprob = set(post.get("prob", [])) - srcprob
+    univ = rec.get("univ") or {}
+    pool = sorted(univ.get("pool") or [])
+    alias = _alias(univ)
+    why = rec.get("why")
+    reply = rec.get("reply") or {}
+    want = rec.get("want") or []
+    diskstale = _ms(post.get("disk", [])) == _ms(rec.get("srcdisk") or [])
+
+    # --- the table of last bytes in use (ipAddrs) is indexed by the last byte alone
+    if why == "structures" and newprob and act in ("AddStatic", "UpdateStatic", "RemoveStatic", "Restart"):
+        ok = True
+        for p in newprob:
+            m = re.match(r"^bitmap:([+-])(\d+)$", p)
+            if not m:
+                ok = False
+                break
+            i = int(m.group(2))
+            if m.group(1) == "+":
+                # marked although free: a lease on an address of another prefix with that last byte exists now
+                ok = ok and any(alias.get(l[1]) == i for l in ls) and not any(l[1] == pool[i] for l in ls)
+            else:
+                # unmarked although leased: a lease on such an address went away in this step
+                ok = ok and any(alias.get(l[1]) == i for l in _minus(src, ls)) and any(l[1] == pool[i] for l in ls)
+        if ok:
+            return "v6-lastbyte-table-aliases-addresses"
+    if act == "Solicit" and why == "state" and not newprob:
+        marked = [int(p[8:]) for p in srcprob if p.startswith("bitmap:+")]
+        cleared = [int(p[8:]) for p in srcprob if p.startswith("bitmap:-")]
+        # ... a free address of the range is never offered
+        if marked and reply.get("k") in ("nak", "none") and _ms(ls) == _ms(src) and want \
+                and all(w["K"] == "offer" and w["IP"] in [pool[i] for i in marked] for w in want):
+            return "v6-lastbyte-table-aliases-addresses"
+        # ... or an address that is leased is handed to a second client
+        if cleared and reply.get("k") == "offer" and reply.get("ip") in [pool[i] for i in cleared]:
+            extra = _minus(ls, src)
+            if len(extra) == 1 and extra[0][:3] == (a["m"], reply["ip"], 0) and not _minus(src, ls) \
+                    and any(l[1] == reply["ip"] for l in src):
+                return "v6-lastbyte-table-aliases-addresses"
+
+    # --- UpdateStaticLease does not look whether the new address is in use
+    if act == "UpdateStatic" and why == "state" and reply.get("k") == "ok" and not (newprob - {"bitmap:+%d" % i for i in range(len(pool))}
+                                                                                    - {"bitmap:-%d" % i for i in range(len(pool))}):
+        new = (a["m"], a["a"], 3, a["h"])
+        mine = [l for l in src if l[0] == a["m"]]
+        others = [l for l in src if l[0] != a["m"] and l[1] == a["a"]]
+        if new in ls and len(mine) == 1 and others and _ms(ls) == _ms([l for l in src if l != mine[0]] + [new]):
+            return "v6-updatestatic-onto-leased-address"
+
+    if act == "AddStatic" and why == "state":
+        new = (a["m"], a["a"], 3, a["h"])
+        gone = _minus(src, ls)
+        came = _minus(ls, src)
+        evictable = all(g[2] < 2 and (g[0] == a["m"] or g[1] == a["a"]) for g in gone)
+        # --- a refused reservation has already removed dynamic leases (from memory only)
+        if reply.get("k") == "err" and gone and not came and evictable and diskstale and not (newprob - {"bitmap:-%d" % i for i in range(len(pool))}):
+            if any(l[2] == 3 and (l[0] == a["m"] or l[1] == a["a"]) for l in src):
+                return "v6-addstatic-error-after-mutation"
+        # --- rmDynamicLease skips the element swapped into the place of a removed one
+        if reply.get("k") == "ok" and came == [new] and gone and evictable and not newprob:
+            survivors = [l for l in ls if l != new and (l[0] == a["m"] or l[1] == a["a"])]
+            if survivors:
+                return "v6-addstatic-leaves-conflicting-lease"
     return None
 
 
+def _net(x):
+    return x // 10
+
+
 def classify_svc(rec):
+    a = rec["act"]
+    act = a["act"]
+    post = rec.get("post") or {}
+    src = [tuple(l) for l in rec.get("src") or []]
+    ls = [tuple(l) for l in post.get("ls", [])]
+    newprob = set(post.get("prob", [])) - set(rec.get("srcprob") or [])
+    univ = rec.get("univ") or {}
+    why = rec.get("why")
+    ok = (rec.get("reply") or {}).get("k") == "ok"
+    mine = [l for l in src if l[0] == a.get("m") and _net(l[1]) == _net(a.get("a", 0))]
+
+    # --- a lease on the gateway address is accepted
+    if act in ("AddLease", "UpdateStatic") and a["a"] in (univ.get("gws") or []) and ok and why == "state":
+        new = (a["m"], a["a"], 1 if a["kind"] == "dynamic" else 3, a["h"])
+        base = src if act == "AddLease" else [l for l in src if l not in mine]
+        # (the update may at the same time show the symptom of svc-update-takes-hostname-of-own-lease-elsewhere)
+        twin = act == "UpdateStatic" and any(l[0] == a["m"] and l[3] == a["h"] and _net(l[1]) != _net(a["a"]) for l in src)
+        if newprob <= ({"byname:miss", "leases:differs"} if twin else set()) \
+                and (act == "AddLease" and not mine or act == "UpdateStatic" and len(mine) == 1) and _ms(ls) == _ms(base + [new]):
+            return "svc-gateway-address-leased"
+
+    # --- RemoveLease with identifiers of different leases removes index entries of each
+    if act == "RemoveLease" and ok and why in ("state", "reply"):
+        eq = [l for l in src if (l[0], l[1], l[3]) == (a["m"], a["a"], a["h"])]
+        if not eq and any(l[1] == a["a"] for l in src) and any(l[3] == a["h"] for l in src) and mine:
+            return "svc-remove-mixed-identifiers"
+
+    # --- UpdateStaticLease takes the name of the client's own lease on another network
+    if act == "UpdateStatic" and ok and why == "state" and len(mine) == 1 and a["a"] not in (univ.get("gws") or []):
+        new = (a["m"], a["a"], 3, a["h"])
+        twin = [l for l in src if l[0] == a["m"] and l[3] == a["h"] and _net(l[1]) != _net(a["a"])]
+        if twin and new in ls and not any(l[1] == a["a"] for l in src if l not in mine):
+            return "svc-update-takes-hostname-of-own-lease-elsewhere"
     return None
 
 
@@ -219,7 +332,7 @@ def trace(ctx, half, H, opts, counts):
                      "want": want, "why": b["why"], "reply": t["out"],
                      "post": {"ls": t["dst"], "disk": t["disk"], "prob": t["prob"]},
                      "history": [x["act"] for x in rows[j:i + 1]], "univ": univ, "seed": ctx.seed,
-                     "trace_line": b["l"], "sig": "trace|%s|%s|%s" % (t["act"]["act"], b["why"], ";".join(t["prob"]))})
+                     "trace_line": b["l"], "sig": "trace|%s|%s|%s|%s" % (t["act"]["act"], b["why"], t["out"]["k"], ";".join(t["prob"]))})
     per_sig = {}
     todo = []
     for rec in recs:
@@ -288,7 +401,7 @@ def run_half1(ctx, half):
         mc = tlc_raw(ctx, H["module"], P["cfg"], workers=P["tlc_workers"], timeout=900, coverage=True)
         if mc["nvec"] != mc["distinct"] or not mc["nvec"]:
             raise vlib.Inconclusive("%s: emitted %d state lines for %d distinct states" % (half, mc["nvec"], mc["distinct"]))
-        opts = dict(order=P["order"], workers=P["workers"], deadline_s=P["deadline_s"], resetevery=400, maxrepro=3)
+        opts = dict(order=P["order"], workers=P["workers"], deadline_s=P["deadline_s"], resetevery=400, maxrepro=5)
         rows, summ = walk(ctx, half, H, mc["outfile"], univ, opts, str(i))
         vac = vacuity(H, mc, summ)
         if vac:
